@@ -362,6 +362,11 @@ impl BRC20ProgEngine {
             self.db.write_fn(|db| {
                 db.remove_pending_tx(pending_tx.from.address, pending_tx.nonce.into())
             })?;
+            if receipts.len() as u64 != next_tx_idx - tx_idx + 1 {
+                // The pending transaction was too old and has been dropped instead of executed,
+                // its successors can not be executed without it
+                break;
+            }
             next_nonce += 1;
             next_tx_idx += 1;
         }
